@@ -25,7 +25,7 @@ for f in [matrix]:
 n = 0
 for d in sorted(glob.glob(os.path.join(root, 'C*', 'm*', 'meta.json'))):
     sd = os.path.dirname(d); pid = sd.split('/')[-2]; mk = sd.split('/')[-1]
-    key = ('%s_%s' % (pid, mk)) if tag == 'r1' else ('%s_%s' % (pid, mk))
+    key = os.environ.get('KEYPREFIX', '') + '%s_%s' % (pid, mk)
     r = res.get(key)
     if not r or r['demo_clean'] != '0' or r['demo_patched'] == '0' or r['suite'] != '0':
         print('skip', pid, mk, r); continue
@@ -37,7 +37,7 @@ for d in sorted(glob.glob(os.path.join(root, 'C*', 'm*', 'meta.json'))):
     c = caught.get('%s/%s' % (pid, mk), {})
     json.dump({
         'property': pid,
-        'origin': 'written by an independent sub-agent that saw only the property text and a scratch worktree of /repo (%s)' % ('first round' if tag == 'r1' else 'second round, told to avoid the first round\'s changes'),
+        'origin': 'written by an independent sub-agent that saw only the property text and a scratch worktree of /repo (%s)' % ({'r1': 'first round', 'r2': 'second round, told to avoid the first round\'s changes', 'r3': 'third round, told to avoid the changes of rounds one and two'}.get(tag, tag)),
         'what_changed': meta.get('what_changed'),
         'needs_to_manifest': meta.get('needs_to_manifest'),
         'why_suite_misses_it': meta.get('why_suite_misses_it'),
